@@ -156,6 +156,17 @@ impl Config {
             Some(JobControl::Foreground) => env.get_tty().await.ok(),
         };
 
+        // Install the internal disposition for SIGCHLD before the child is
+        // created. If SIGCHLD were ignored (because the shell inherited that
+        // disposition or the user ran `trap '' CHLD`) at the time the child
+        // terminates, the system would discard the child's exit status and
+        // a later `wait` for the child would fail with `ECHILD`. This must be
+        // done before blocking SIGINT and SIGQUIT below, since a disposition
+        // must not be changed until the signal mask is restored.
+        env.traps
+            .enable_internal_disposition_for_sigchld(&env.system)
+            .await?;
+
         let ignore_sigint_sigquit = self.ignores_sigint_sigquit && job_control.is_none();
         let original_mask = if ignore_sigint_sigquit {
             // Block SIGINT and SIGQUIT before forking the child process to
@@ -166,15 +177,6 @@ impl Config {
             None
         };
         let keep_internal_dispositions_for_stoppers = job_control.is_none();
-
-        // Install the internal disposition for SIGCHLD before the child is
-        // created. If SIGCHLD were ignored (because the shell inherited that
-        // disposition or the user ran `trap '' CHLD`) at the time the child
-        // terminates, the system would discard the child's exit status and
-        // a later `wait` for the child would fail with `ECHILD`.
-        env.traps
-            .enable_internal_disposition_for_sigchld(&env.system)
-            .await?;
 
         // Define the child process task
         const ME: Pid = Pid(0);
